@@ -19,7 +19,7 @@ RULE = (
     "enableBLOB x 3 values, pingReply, 4 new*Vector kinds) x device name {A, B, none, unknown} x sender {each client - registered "
     "or not -, each device, none} is applied to a real Router and the multiset of (endpoint, message) deliveries compared with the "
     "reference router: every registered device != sender that accepts the name exactly once, no client ever receives a device-bound "
-    "message, getProperties relayed per C05's rule, nothing raised; recording endpoints are containers of what they received (falsy while empty); 'unreferenced': devices the "
+    "message, getProperties relayed per C05's rule, nothing raised; recording endpoints are containers of what they received (falsy while empty); 'flood': a getProperties answered from inside its delivery with 3 .. 5000 (thorough: 60000) definitions while a client reacts to one of them with a message for another device: delivered exactly once; 'unreferenced': devices the "
     "caller keeps no reference to stay registered across a gc pass. 'history': Hypothesis histories (<= 40 ops, <= 6 clients) of "
     "register-device/register-client/unregister/enableBLOB/client-send. Non-trivial: >= 2 devices registered, sender given, and at "
     "least one registered device that must NOT receive the message."
@@ -159,7 +159,68 @@ client_history_ops = st.one_of(
 )
 history = st.fixed_dictionaries({"ndev": st.integers(1, 3), "ncli": st.integers(1, 6), "ops": st.lists(client_history_ops, min_size=2, max_size=40)})
 
-SUBCHECKS = {"states": check_state, "history": check_history, "unreferenced": check_unreferenced}
+def check_flood(case):
+    """A big installation: one getProperties is answered, from inside its delivery, with `n` definitions; a client reacts to
+    the `react_at`-th of them with a getProperties for another device (what a snooping driver does). Every message sent
+    that way is a message like any other: the second device receives the request exactly once, whatever else is in flight.
+    case: {"n": int, "react_at": int, "kind": "getProperties"|"newTextVector"}"""
+    from indi import message as M
+    from indi.routing import Client, Device, Router
+
+    router = Router()
+    n = case["n"]
+    b_got = []
+    seen = {"defs": 0, "obs": 0}
+
+    class A(Device):
+        def accepts(self, device):
+            return device in (None, "A")
+
+        def message_from_client(self, m):
+            if m.__class__.tag_name() == "getProperties":
+                for i in range(n):
+                    router.process_message(M.DefTextVector(device="A", name=f"P{i}", state="Ok", perm="rw", children=()), sender=self)
+
+    class B(Device):
+        def accepts(self, device):
+            return device in (None, "B")
+
+        def message_from_client(self, m):
+            b_got.append(m.__class__.tag_name())
+
+    class Reactor(Client):
+        def message_from_device(self, m):
+            if m.__class__.tag_name() == "defTextVector" and m.device == "A":
+                seen["defs"] += 1
+                if seen["defs"] == 1 + case["react_at"] % n:
+                    if case["kind"] == "getProperties":
+                        router.process_message(M.GetProperties(version="1.7", device="B"), sender=self)
+                    else:
+                        router.process_message(M.NewTextVector(device="B", name="T", children=()), sender=self)
+
+    class Obs(Client):
+        def message_from_device(self, m):
+            if m.__class__.tag_name() == "defTextVector" and m.device == "A":
+                seen["obs"] += 1
+
+    a, b, reactor, obs = A(), B(), Reactor(), Obs()
+    router.register_device(a)
+    router.register_device(b)
+    router.register_client(reactor)
+    router.register_client(obs)
+    try:
+        router.process_message(M.GetProperties(version="1.7", device="A"), sender=obs)
+    except Exception as exc:  # noqa
+        raise Failure(f"flood:raises:{type(exc).__name__}", f"{case}: {type(exc).__name__}: {exc}")
+    want = [case["kind"]]
+    if b_got != want:
+        raise Failure("flood:message-sent-during-a-large-reply-not-delivered-exactly-once", f"{case}: device B received {b_got}, expected {want}")
+    if seen["defs"] != n or seen["obs"] != n:
+        raise Failure("flood:definitions-lost", f"{case}: {n} definitions sent, the reacting client saw {seen['defs']}, the observer {seen['obs']}")
+    return Info(nontrivial=n > 100, labels=[f"n={n}", case["kind"]])
+
+
+SUBCHECKS = {"flood": check_flood, "states": check_state, "history": check_history, "unreferenced": check_unreferenced}
 
 
 def states(n):
@@ -174,3 +235,5 @@ def run(ctx):
     ctx.exhaustive["states"] = {"complete": True, "n_states": cnt, "bound": f"8 device subsets x 17^{n} client states; every client-originated send x 4 device names x every sender in each"}
     ctx.hyp("history", history, check_history, ctx.scale(400, 8000))
     ctx.each("unreferenced", [{"n": n_, "kind": k, "gc": g} for n_ in (1, 3) for k in ("plain", "driver") for g in (False, True)], check_unreferenced, stop_after=2)
+    big = ctx.scale(5000, 60000)
+    ctx.each("flood", [{"n": n_, "react_at": r, "kind": k} for n_ in (3, 50, 1500, big) for r in (0, 1, n_ - 1) for k in ("getProperties", "newTextVector")], check_flood, stop_after=2, timeout=150)
